@@ -171,6 +171,13 @@ class _ReadSourceGenerator:
             if not issubclass(field_type, SUPPORTED_TYPES):
                 raise TypeError(f"Unsupported type for compiler: {field_type}")
 
+            base_type = field_type
+            while issubclass(base_type, BaseArray):
+                base_type = base_type.type
+            if issubclass(base_type, Pointer) and not issubclass(self.cs.pointer, Packed):
+                # Pointer values are taken from the unpacked struct data, which only exists for struct based types
+                raise TypeError(f"Unsupported pointer type for compiler: {self.cs.pointer}")
+
             if prev_was_bits and not field.bits:
                 yield "bit_reader.reset()"
                 prev_was_bits = False
